@@ -42,6 +42,8 @@ def parse(path):
     st = {'ops': {}, 'resp': {}, 'samples': [], 'oracle_fail': []}
     for line in open(path):
         k, _, v = line.rstrip('\n').partition('=')
+        if line.startswith(('op:', 'resp:')):
+            k, _, v = line.rstrip('\n').rpartition('=')
         if k.startswith('op:'):
             st['ops'][k[3:]] = int(v)
         elif k == 'sample':
